@@ -70,6 +70,17 @@ def cases(tier, rng):
             for m in mask_variants(t, rng, 2 if tier == "quick" else 4):
                 out.append((useq_case(p, t, m), "masked-right"))
                 out.append((useq_case(p, m, t), "masked-left"))
+    # (c') the same for big terms (depth <= 5, lists of up to 12 elements, wide complex terms, ids up to 46 and ids that collide
+    #      modulo 64 / 256): a big term against copies of itself masked by $_ at 1-2 positions
+    from gen import C06 as _c06
+    for _ in range(60 if tier == "quick" else 1500):
+        ids = rng.choice([[1, 2, 3, 4, 5, 6], [21, 22, 23, 24, 25, 26], [3, 5, 67, 69, 131, 133], [2, 258, 514, 66, 130, 6]])
+        t = _c06.big_term(rng, ids, rng.choice([3, 4, 5]))
+        if "anon" in t: continue          # a $_ already inside t could end up in a binding of the prior
+        for m in mask_variants(t, rng, 2):
+            out.append((prior_case([]), "prior"))
+            out.append((useq_case([], t, m), "masked-right"))
+            out.append((useq_case([], m, t), "masked-left"))
     # (d) a term t in which the variable v occurs exactly once, against an instance g of t (v replaced by a fresh
     #     variable or a ground term, every other variable by a ground term): the same with v replaced by $_ must
     #     give the same bindings except the one of (or to) v - the other positions still bind
@@ -92,7 +103,7 @@ def cases(tier, rng):
 RULE = ("(a) x = $_ and $_ = x for every x of the 119-term universe plus function terms and malformed terms, under 18 "
         "prior substitutions; (b) random sequences of 2-5 unifications in which about 40% of the steps have $_ on one side, "
         "each paired with the same sequence without those steps; (c) every universe term against copies of itself with "
-        "sub-terms (arguments, list elements, list tails, nested terms) replaced by $_; (d) every universe term t in which a variable v occurs exactly once "
+        "sub-terms (arguments, list elements, list tails, nested terms) replaced by $_ (also big terms: depth <= 5, 12-element lists, colliding ids); (d) every universe term t in which a variable v occurs exactly once "
         "against an instance of t (v replaced by a fresh variable or a ground term, the other variables by ground terms), in both orders, and the same with v replaced by $_. "
         "Relations on the implementation's results: (d) the bindings are those of the run with v, minus the binding of (or to) v; (a),(c) succeed and return the prior set unchanged; (b) both sequences give the same result; no result "
         "binds a variable to $_. Non-trivial = the case contains $_ and the prior or the sequence binds something.")
